@@ -487,7 +487,20 @@ fn gen_op(r: &mut Rng, sim: &mut Sim) -> (Vec<String>, PatchOp) {
             }
             let mut before = vec![];
             let mut after = vec![];
-            if lines.is_empty() || r.chance(1, 7) {
+            let prev_after: Vec<String> = hunks.last().map(|h: &rip_workspace::PatchHunk| h.after.clone()).unwrap_or_default();
+            if !prev_after.is_empty() && r.chance(1, 5) {
+                // context taken from the lines the previous hunk inserted: they lie before the cursor, so the
+                // search must not find them there (it may find the same text further down)
+                let k = r.range(1, prev_after.len().min(2) as u64) as usize;
+                for l in &prev_after[prev_after.len() - k..] {
+                    out.push(format!(" {l}"));
+                    before.push(l.clone());
+                    after.push(l.clone());
+                }
+                let w = r.pick(&WORDS[..]).to_string();
+                out.push(format!("+{w}"));
+                after.push(w);
+            } else if lines.is_empty() || r.chance(1, 7) {
                 // pure append hunk
                 for _ in 0..r.range(1, 2) {
                     let w = r.pick(&WORDS[..]).to_string();
